@@ -411,23 +411,12 @@ func init() {
 }
 
 func ExecReader(data any, selector string) (any, error) {
-	mut.Lock()
-	if _, ok := cache[selector]; !ok {
-		allSelectors := make([][]any, 0)
-		selectors := strings.Split(selector, "::")
-		for _, item := range selectors {
-			selectors, err := ParseSelector(item)
-			if err != nil {
-				mut.Unlock()
-				return nil, err
-			}
-			allSelectors = append(allSelectors, selectors)
-		}
-		cache[selector] = allSelectors
+	allSelectors, err := CachedSelectors(selector)
+	if err != nil {
+		return nil, err
 	}
-	mut.Unlock()
 	result := data
-	for _, item := range cache[selector] {
+	for _, item := range allSelectors {
 		rs, err := ReaderExecutor(result, item)
 		if err != nil {
 			return nil, err
@@ -435,6 +424,27 @@ func ExecReader(data any, selector string) (any, error) {
 		result = rs
 	}
 	return result, nil
+}
+
+// Parses a selector once and keeps the result in the process-wide cache. The
+// cache is only touched while the mutex is held
+func CachedSelectors(selector string) ([][]any, error) {
+	mut.Lock()
+	defer mut.Unlock()
+	if allSelectors, ok := cache[selector]; ok {
+		return allSelectors, nil
+	}
+	allSelectors := make([][]any, 0)
+	selectors := strings.Split(selector, "::")
+	for _, item := range selectors {
+		selectors, err := ParseSelector(item)
+		if err != nil {
+			return nil, err
+		}
+		allSelectors = append(allSelectors, selectors)
+	}
+	cache[selector] = allSelectors
+	return allSelectors, nil
 }
 
 func ReaderExecutor(data any, selectors []any) (any, error) {
